@@ -238,8 +238,13 @@ class TcpConnection(
         # FIXME: do something ;-)
         pass
 
-    # RFC8323Remote.release recommends subclassing this, but there's no easy
-    # awaitable here yet, and no important business to finish, timeout-wise.
+    async def release(self):
+        await super().release()
+        # Not waiting for the peer to hang up: Once the pool is shut down,
+        # nothing is to be received or sent on this connection any more.
+        # (Closing still flushes the Release message).
+        if self._transport is not None:
+            self._transport.close()
 
 
 class _TCPPooling:
@@ -264,6 +269,10 @@ class _TCPPooling:
     # used by the TcpConnection instances
 
     def _dispatch_incoming(self, connection, msg):
+        if self._tokenmanager is None:
+            # Shut down; whatever was still in flight is dropped.
+            return
+
         if msg.code == 0:
             # Empty messages are ignored (RFC 8323 Section 3.4)
             return
